@@ -291,11 +291,13 @@ class DirtyState(Analysis):
         return Analysis.run_stmt(self, stmt, state)
 
     def _is_clean_all_loop(self, stmt):
-        if not (isinstance(stmt.target, ast.Name) and len(stmt.body) == 1
-                and isinstance(stmt.body[0], ast.Expr)
-                and isinstance(stmt.body[0].value, ast.Call) and not stmt.orelse):
+        from .astutil import effective
+        body = effective(stmt.body)
+        if not (isinstance(stmt.target, ast.Name) and len(body) == 1
+                and isinstance(body[0], ast.Expr)
+                and isinstance(body[0].value, ast.Call) and not stmt.orelse):
             return False
-        call = stmt.body[0].value
+        call = body[0].value
         if last_attr(call) != 'calculate_total_pka' or norm(call.func.value) != stmt.target.id:
             return False
         it = stmt.iter
